@@ -28,8 +28,8 @@ META = dict(
          "Location leaves https for http no request is sent there (and no further request at all) and at most one response is "
          "delivered; no request ever reaches an http origin after an https one.",
     note="Origins are harness-played (they answer a complete request at once); the redirected method is not judged (the "
-         "statement does not define 303 semantics); only GET without a body is sent. Percent-encoded paths and non-ASCII "
-         "Locations are not generated. Connection loss, refused connections and TLS handshake "
+         "statement does not define 303 semantics); only GET without a body is sent. Raw non-ASCII Locations are not generated "
+         "(percent-escaped UTF-8 and spaces in the path are: '/caf%C3%A9/same', '/x/annual%20report'). Connection loss, refused connections and TLS handshake "
          "faults are C25/C27's subject.",
 )
 from urllib.parse import urljoin, urlsplit, unquote, parse_qsl
@@ -67,7 +67,8 @@ def forms(cur, n):
     oport = pair[1] if port == pair[0] else pair[0]
     ohost = H2 if host == H1 else H1
     out = [
-        ("same", "%s://%s:%d/same%d" % (scheme, host, port, n)),
+        # "same" (absolute) and "abspath" (relative) carry percent-escapes in the PATH: non-ASCII and a space
+        ("same", "%s://%s:%d/caf%%C3%%A9/same%d" % (scheme, host, port, n)),
         ("same+q", "%s://%s:%d/same%d?k=v%d" % (scheme, host, port, n, n)),
         ("port", "%s://%s:%d/port%d" % (scheme, host, oport, n)),
         ("port+q", "%s://%s:%d/port%d?k=v%d" % (scheme, host, oport, n, n)),
@@ -79,7 +80,7 @@ def forms(cur, n):
         # the "+q" variants of the relative forms carry an unescaped URL as query value / a '://' in the fragment
         # (legal: ':' and '/' need no escaping there), so they look absolute to a sloppy test
         ("rel+q", "x%d?return=https://h%d.example/y" % (n, n)),
-        ("abspath", "/x%d/y" % n),
+        ("abspath", "/x%d/annual%%20report" % n),
         ("abspath+q", "/x%d/y?next=http://h/x%d&k=v%d" % (n, n, n)),
         ("dotdot", "../x%d" % n),
         ("dotdot+q", "../x%d?k=v%d#see://frag%d" % (n, n, n)),
@@ -398,8 +399,8 @@ def run():
         "TLS is the net engine's plaintext-moving TLS double (handshakes succeed); contexts ioflo creates itself come from an "
         "ssl-module double in ioflo.aio.tcp.clienting",
         "the reference resolution of a Location is urllib.parse.urljoin(URL of the redirected request, Location); the expected "
-        "request target is its path plus '?query', compared up to percent-encoding spelling (decoded path, decoded query "
-        "name/value pairs in order); the expected Host header is host:port of the resolved origin",
+        "request target is its path plus '?query', compared up to percent-encoding spelling (path and query name/value pairs each percent-decoded exactly "
+        "once, in order - a doubly encoded '%2520' is not '%20'); the expected Host header is host:port of the resolved origin",
         "'reissues the request' is read as: same method (GET) to the resolved location; method rewriting for 303 is not judged",
         "a Location that leaves https for http must not be followed; what the client delivers then (an errored response, "
         "nothing, or an exception) is not judged beyond 'at most one response, carrying the chain so far in order'",
